@@ -4,8 +4,8 @@ set -e
 cd "$(dirname "$0")"
 export GOFLAGS=-mod=mod GOPROXY=off GOSUMDB=off GOTOOLCHAIN=local
 mkdir -p .work evidence replays
+(cd extract && go run . --repo /repo --out ../lean/SamlVerif/Generated/Facts.lean)
 (cd lean && lake build 2>&1 | tail -5)
 cp /repo/go.sum harness/go.sum
 (cd harness && go build -tags verif -o ../.work/harness . )
-if [ -d extract ]; then (cd extract && go build -o ../.work/extract . ); fi
 echo setup done
